@@ -59,6 +59,16 @@ def path_provenance(m, q, call):
                 flags.setdefault(t.attr, []).append((n, n.ast.value.value))
     defs = [n for n in g.nodes if n.kind in ("stmt",) and isinstance(n.ast, ast.Assign)
             and any(isinstance(t, ast.Name) and t.id == var for t in n.ast.targets)]
+
+    def prefix_of(e, depth):
+        """constant leading path component, looking through plain copies of other locals (all their definitions must agree)"""
+        p = _const_prefix(e)
+        if p is not None or depth > 3 or not isinstance(e, ast.Name):
+            return p
+        ds = [n for n in g.nodes if n.kind == "stmt" and isinstance(n.ast, ast.Assign)
+              and any(isinstance(t, ast.Name) and t.id == e.id for t in n.ast.targets)]
+        ps = {prefix_of(d.ast.value, depth + 1) for d in ds}
+        return list(ps)[0] if len(ps) == 1 else None
     out = []
     if len(flags) == 1:
         attr, sets = list(flags.items())[0]
@@ -84,10 +94,10 @@ def path_provenance(m, q, call):
                 if target.id in g.reach([d.id], avoid=others, edge_filter=filt):
                     live.append(d)
             for d in live:
-                out.append(("self.%s=%s" % (attr, val), _const_prefix(d.ast.value)))
+                out.append(("self.%s=%s" % (attr, val), prefix_of(d.ast.value, 0)))
         return out or [(None, None)]
     for d in defs:
-        out.append((None, _const_prefix(d.ast.value)))
+        out.append((None, prefix_of(d.ast.value, 0)))
     return out or [(None, None)]
 
 
@@ -137,10 +147,10 @@ def _stable_construct(m, f, call, what):
     if raisers:
         mine += " [raised explicitly by: %s]" % ", ".join(sorted(raisers))
     same = [c for c, w in pycalls.mutator_calls(f) if w == what and ctx(c) == mine.split(" [raised")[0]]
-    same.sort(key=lambda c: (c.lineno, c.col_offset))
+    pos = sorted({(c.lineno, c.col_offset) for c in same})       # inlined copies of one call site count once
     text = what + ("(...) in " + mine if mine else "(...)")
-    if len(same) > 1:
-        text += " #%d" % (1 + [id(c) for c in same].index(id(call)))
+    if len(pos) > 1:
+        text += " #%d" % (1 + pos.index((call.lineno, call.col_offset)))
     return text
 
 
@@ -167,9 +177,28 @@ def r1_read_roles(repo=None, rid="C20.R1", prefixes=None, stop_modules=()):
     prev = g.reachable(starts, use_imprecise=False)
     prev_all = g.reachable(starts, use_imprecise=True)
     n_mut = 0
-    for fk in sorted(prev_all):
-        m, f = g.funcs[fk]
-        for call, what in pycalls.mutator_calls(f):
+    # Each reachable function is looked at with its private helpers inlined (pyinline), public functions and constructors
+    # first, so that a mutator that sits in an extracted helper is judged in the context of its caller (provenance of the
+    # path, enclosing exception handlers).  A call site is reported once (original position of the call).
+    order = sorted(prev_all, key=lambda k: (k.split(":")[1].split(".")[-1].startswith("_") and not k.endswith(".__init__"), k))
+    seen_sites = set()
+    work = []
+    for fk in order:
+        m0, f0 = g.funcs[fk]
+        q0 = fk.split(":")[1]
+        if "<locals>" in q0:
+            view, fview = m0, f0
+        else:
+            view = m0.flat(q0, depth=4)
+            fview = view.fn()
+        for call, what in pycalls.mutator_calls(fview):
+            site = (m0.rel, call.lineno, call.col_offset)
+            if site in seen_sites:
+                continue
+            seen_sites.add(site)
+            work.append((fk, view, fview, call, what))
+    for fk, m, f, call, what in work:
+        if True:
             n_mut += 1
             q = fk.split(":")[1]
             chain = g.chain(prev_all, fk)
@@ -191,7 +220,8 @@ def r1_read_roles(repo=None, rid="C20.R1", prefixes=None, stop_modules=()):
                 r.note("imprecise: %s reaches `%s` only through name-based call edges (%s)" % (chain[0], cons, " -> ".join(chain)))
                 continue
             part = "; ".join("%s -> %s" % (p[0] or "any", p[1] or "a path inside the data tree") for p in inside)
-            r.violation(m.rel, q, cons, "a read-only entry point (%s) can reach `%s` on a path inside the data tree [%s]: "
+            owner = q.split(".")[0] if "." in q else q      # class (or module-level function): stable under private renames
+            r.violation(m.rel, owner, cons, "a read-only entry point (%s) can reach `%s` on a path inside the data tree [%s]: "
                         "reading would create, modify or delete files" % (chain[0].split(":")[1], what, part),
                         line=call.lineno, path=chain)
     for s in starts[:1]:
@@ -225,36 +255,48 @@ def r2_write_closed_on_return(repo=None):
                 r.violation(m.rel, q, "self.%s = h5py.File(...)" % attr, "a file handle is kept on the writer", line=node.lineno)
     if n_open < 3:
         raise AnalysisError("expected 3 h5py.File sites in DigitalMetadataWriter, found %d" % n_open)
-    # the generator that holds the file open is exhausted by _write before it returns
-    w = m.fn(cls + "._write")
-    gens = [n for n in ast.walk(w) if isinstance(n, ast.Assign) and isinstance(n.value, ast.Call)
-            and pyfront.call_name(n.value) == "self._sample_group_generator"]
-    if len(gens) != 1 or not isinstance(gens[0].targets[0], ast.Name):
-        raise AnalysisError("_write: binding of the sample group generator not found")
-    gv = gens[0].targets[0].id
-    loops = [n for n in pyfront.walk_no_nested(w) if isinstance(n, ast.For)]
+    # the generator that holds the file open is exhausted before write() returns: in write() (private helpers inlined) the
+    # generator object is the first argument of the zip() that drives the only loop over it, and that loop has no break/return
+    from . import dmdroles
+    ro = dmdroles.roles(repo)
+    wv = ro.write_view
+    w = wv.fn()
+    gcall = "self." + ro.gen_name
+    gens = [n for n in ast.walk(w) if isinstance(n, ast.Assign) and isinstance(n.value, ast.Call) and pyfront.call_name(n.value) == gcall
+            and isinstance(n.targets[0], ast.Name)]
+    gnames = {n.targets[0].id for n in gens}
+    loops = [n for n in ast.walk(w) if isinstance(n, ast.For)]
     ok = False
+    the_loop = None
     for lp in loops:
         it = lp.iter
-        if isinstance(it, ast.Call) and pyfront.call_name(it) == "zip" and it.args and isinstance(it.args[0], ast.Name) \
-                and it.args[0].id == gv:
+        items = list(it.args) if isinstance(it, ast.Call) and pyfront.call_name(it) == "zip" and it.args else [it]
+
+        def is_gen(e):
+            return (isinstance(e, ast.Name) and e.id in gnames) or (isinstance(e, ast.Call) and pyfront.call_name(e) == gcall)
+        if any(is_gen(e) for e in items):
+            the_loop = lp
             early = [x for x in ast.walk(lp) if isinstance(x, (ast.Break, ast.Return))]
-            ok = not early
-        elif isinstance(it, ast.Name) and it.id == gv:
-            ok = not [x for x in ast.walk(lp) if isinstance(x, (ast.Break, ast.Return))]
+            ok = not early and is_gen(items[0])
+    if the_loop is None:
+        raise AnalysisError("%s.write: loop over the sample-group generator %s not found (helpers inlined: %s)" % (cls, ro.gen_name, wv.inlined))
     if ok:
-        r.ok("%s:%s %s._write" % (m.rel, w.lineno, cls), "the file-holding generator is the first argument of zip() and the loop "
-             "has no break/return, so it is exhausted (leaving its `with`) before _write returns")
+        r.ok("%s:%s %s.write" % (m.rel, the_loop.lineno, cls), "the file-holding generator is the first argument of zip() and the loop "
+             "has no break/return, so it is exhausted (leaving its `with`) before write returns")
     else:
-        r.violation(m.rel, cls + "._write", "for ... in zip(...)", "the generator that holds the HDF5 file open is not exhausted "
-                    "before _write returns (zip stops at its first exhausted argument): the last file may still be open and "
-                    "unflushed when write() returns", line=w.lineno)
-    wr = m.fn(cls + ".write")
-    rets = [n for n in pyfront.walk_no_nested(wr) if isinstance(n, ast.Return)]
-    if rets and all(isinstance(x.value, ast.Call) and pyfront.call_name(x.value) == "self._write" for x in rets):
-        r.ok("%s:%s %s.write" % (m.rel, wr.lineno, cls), "returns only through self._write(...)")
+        r.violation(m.rel, cls + ".write", "for ... in zip(...)", "the generator that holds the HDF5 file open is not exhausted "
+                    "before write returns (zip stops at its first exhausted argument): the last file may still be open and "
+                    "unflushed when write() returns", line=the_loop.lineno)
+    # every normal return of write() happens after that loop
+    g = wv.cfg()
+    heads = [n.id for n in g.nodes if n.kind == "cond" and n.ast is the_loop]
+    ends = [n for n in g.nodes if n.kind in ("return", "exit")]
+    free = g.reach([g.entry.id], avoid=heads, skip_labels=("exc",))
+    bypass = [n for n in ends if n.id in free]
+    if heads and not bypass:
+        r.ok("%s:%s %s.write" % (m.rel, w.lineno, cls), "every normal return passes the loop that writes the samples")
     else:
-        r.violation(m.rel, cls + ".write", "return path", "write() can return without going through _write", line=wr.lineno)
+        r.violation(m.rel, cls + ".write", "return path", "write() can return without writing the samples", line=w.lineno)
     r.guard(5)
     return r
 
@@ -264,11 +306,33 @@ def r3_stateless_reader(repo=None):
     m = pyfront.mod("digital_metadata", repo)
     cls = "DigitalMetadataReader"
     n = 0
-    for name, f in m.methods(cls).items():
+    methods = m.methods(cls)
+    callers = {name: set() for name in methods}
+    for name, f in methods.items():
+        for c in ast.walk(f):
+            if isinstance(c, ast.Call) and (pyfront.call_name(c) or "").startswith("self.") and pyfront.call_name(c)[5:] in callers:
+                callers[pyfront.call_name(c)[5:]].add(name)
+            elif isinstance(c, ast.Attribute) and isinstance(c.value, ast.Name) and c.value.id == "self" and c.attr in callers \
+                    and c.attr != name and isinstance(c.ctx, ast.Load):
+                callers[c.attr].add(name)      # bound method passed around: counts as a use by `name`
+    ctor_only = {"__init__"}
+    changed = True
+    while changed:
+        changed = False
+        for name in methods:
+            if name not in ctor_only and name.startswith("_") and not name.startswith("__") and callers[name] \
+                    and callers[name] <= ctor_only:
+                ctor_only.add(name)
+                changed = True
+    for name, f in methods.items():
         if name == "__init__":
             continue
         n += 1
         st = pyfront.self_stores(f)
+        if st and name in ctor_only:
+            r.ok("%s:%s %s.%s" % (m.rel, f.lineno, cls, name), "private helper used only by the constructor (stores %s)" % sorted(
+                {a for a, _ in st}))
+            continue
         if st:
             r.violation(m.rel, "%s.%s" % (cls, name), "self.%s stored outside __init__" % st[0][0],
                         "the reader caches state between queries: a reader created earlier would not see what a new "
